@@ -1,5 +1,5 @@
 INIT Init
 NEXT Next
-CONSTANTS Dump = FALSE Size = "quick"
+CONSTANTS Dump = FALSE Lite = FALSE Size = "quick"
 INVARIANTS Inv
 CHECK_DEADLOCK FALSE
